@@ -2,7 +2,7 @@
    process_ack_timeouts, service. *)
 From GM Require Import Base.Prelude Base.Outcome Codec.Packets Codec.Settings Engine.Model
   EngineProofs.AssocLemmas EngineProofs.PacketIds EngineProofs.WFLemmas EngineProofs.WFDefs EngineProofs.WFCore
-  EngineProofs.WFComplete EngineProofs.WFClose EngineProofs.WFService EngineProofs.WFService2 EngineProofs.WFService3.
+  EngineProofs.WFComplete EngineProofs.WFClose EngineProofs.WFService EngineProofs.WFService2 EngineProofs.WFService3 EngineProofs.WFTrack.
 From Coq Require Import Sorting.Sorted.
 From RecordUpdate Require Import RecordSet.
 Import RecordSetNotations.
@@ -106,16 +106,16 @@ Section Serve.
 
   Lemma service_queue_spec (s : state) m now cap fill :
     WF cfg s -> cinv HC s -> (s_st s = PendingConnack -> m = false) -> 4 <= cap ->
-    lp (s_st s) (service_queue s m now cap fill).
+    lp (s_st s) (TR s) (service_queue s m now cap fill).
   Proof.
     intros HW HI Hm Hcap. unfold Model.service_queue.
     set (fuel := S (S (length (s_hq s) + length (s_rq s) + length (s_uq s)))).
-    assert (L : lp (s_st s) (service_loop (fuel + fuel) s m now cap fill [] [])).
+    assert (L : lp (s_st s) (TR s) (service_loop (fuel + fuel) s m now cap fill [] [])).
     { apply (service_loop_spec _ _ _ _ _ _ _ _ _ _ _ _ _ _ _ _ HC); auto.
       unfold mu, qlen, fuel. destruct (s_cur s); lia. }
     set (r := service_loop (fuel + fuel) s m now cap fill [] []) in *.
     destruct (sr_bytes r); [exact L|].
-    destruct L as (L1 & L2 & L3 & L4 & L5). unfold WFService3.lp. cbn. splits; auto.
+    destruct L as (L1 & L2 & L3 & L4 & L5 & L6). unfold WFService3.lp. cbn. splits; auto.
   Qed.
 
   (* per-state facts when a fresh operation (no slow-start mark) is appended *)
@@ -160,13 +160,13 @@ Section Serve.
     match service_keep_alive cfg s now with
     | Panic _ => False
     | Err _ => True
-    | Ok s1 => WF cfg s1 /\ s_st s1 = Connected /\ comp_of s1 = comp_of s
+    | Ok s1 => WF cfg s1 /\ s_st s1 = Connected /\ comp_of s1 = comp_of s /\ (TR s -> TR s1)
     end.
   Proof.
     intros [HW HP] Hst Hnow. unfold service_keep_alive.
-    destruct (s_ping_to s) as [pt|]; [destruct (pt <=? now); [exact I|split; [split|split]; auto]|].
-    destruct (s_next_ping s) as [np|]; [|split; [split|split]; auto].
-    destruct (np <=? now); [|split; [split|split]; auto].
+    destruct (s_ping_to s) as [pt|]; [destruct (pt <=? now); [exact I|split; [split|split; [|split]]; auto]|].
+    destruct (s_next_ping s) as [np|]; [|split; [split|split; [|split]]; auto].
+    destruct (np <=? now); [|split; [split|split; [|split]]; auto].
     set (o := new_op Pingreq false None).
     destruct (create_op_spec [] s o HW eq_refl eq_refl) as (C1 & C2 & C3 & C4 & C5 & C6 & C7 & C8 & C9 & C10).
     cbn [create_operation fst snd] in *. cbv zeta.
@@ -183,8 +183,13 @@ Section Serve.
               s_alloc sF = s_alloc s -> s_ppub sF = s_ppub s -> s_pnon sF = s_pnon s -> s_pwco sF = s_pwco s ->
               s_next_pid sF = s_next_pid s -> s_st sF = s_st s -> s_tmo sF = s_tmo s -> s_connack_to sF = s_connack_to s ->
               s_settings sF = s_settings s -> s_ss_count sF = s_ss_count s -> s_enc sF = s_enc s -> comp_of sF = comp_of s ->
-              WF cfg sF /\ s_st sF = Connected /\ comp_of sF = comp_of s).
-    { intros sF F1 F2 F3 F4 F5 F6 F7 F8 F9 F10 F11 F12 F13 F14 F15 F16 F17 F18. split; [split|split; [congruence|exact F18]].
+              WF cfg sF /\ s_st sF = Connected /\ comp_of sF = comp_of s /\ (TR s -> TR sF)).
+    { intros sF F1 F2 F3 F4 F5 F6 F7 F8 F9 F10 F11 F12 F13 F14 F15 F16 F17 F18. split; [split|split; [congruence|split; [exact F18|]]].
+      3:{ intros T. apply (TR_gen s sF T). intros i o1 Hi Hp. unfold getop in Hi. rewrite F1, lookup_app in Hi.
+          destruct (lookup i (s_ops s)) as [o0|] eqn:E0.
+          - right. inversion Hi; subst o1. exists o0. splits; auto. unfold inQ. rewrite F3, F4, F5, F6, F10. cbn. tauto.
+          - left. cbn in Hi. destruct (s_next_id s =? i) eqn:E; [|discriminate]. inversion Hi; subst o1. assert (i = s_next_id s) by lia. subst i.
+            split; [unfold inQ; rewrite F3; cbn; tauto|]. unfold unb_ok, o. cbn. split; [reflexivity|intros pb Hx; discriminate]. }
       - eapply WFS_queues; [exact C2| | | | | | | | | | |]; cbn; try congruence; auto.
         + core_cbn. cbn. rewrite F4, F5, F6, F8, F9. tauto.
         + core_cbn. cbn. rewrite F3, F4, F5, F6, F10. intros i. cbn. intros [H|[H|[[H|H]|[H|H]]]]; try tauto.
@@ -214,7 +219,7 @@ Section Serve.
   Lemma process_ack_timeouts_spec (s : state) now :
     WF cfg s -> s_st s = Connected \/ s_st s = PendingDisconnect ->
     let t := process_ack_timeouts cfg s now in
-    (forall site, r_out t <> Panic site) /\ WF cfg (r_s t) /\ comp_of (r_s t) = comp_of s.
+    (forall site, r_out t <> Panic site) /\ WF cfg (r_s t) /\ comp_of (r_s t) = comp_of s /\ (TR s -> TR (r_s t)).
   Proof.
     intros [HW HP] Hst. unfold process_ack_timeouts.
     set (s1 := s <| s_tmo := filter (fun '(_, t) => negb (t <=? now)) (s_tmo s) |>).
@@ -224,31 +229,33 @@ Section Serve.
     assert (H91 : W9 cfg s1).
     { intros E. unfold WFP in HP1. rewrite E in HP1. tauto. }
     match goal with |- context [fail_all cfg s1 ?l ?e] => pose proof (fail_all_spec cfg [] l s1 e HW1 H91) as F end.
-    cbv zeta. split; [apply F|]. split; [|rewrite (rest_comp _ _ (fc_rest _ _ _ (fs_frame _ _ _ _ _ F))); reflexivity].
+    cbv zeta. split; [apply F|]. split; [|split; [rewrite (rest_comp _ _ (fc_rest _ _ _ (fs_frame _ _ _ _ _ F))); reflexivity|]].
+    2:{ intros T. eapply TR_frame_c; [apply F|]. apply (TR_queues s); [reflexivity|unfold inQ; cbn; tauto|exact T]. }
     split; [apply F|].
     eapply WFP_after_fail; [exact HP1| |apply F|apply F]. change (s_st s1) with (s_st s). tauto.
   Qed.
 
-  Definition svc_post (r : sres enc dec ores ires) : Prop :=
+  Definition svc_post (T : Prop) (r : sres enc dec ores ires) : Prop :=
     (forall site, sr_out r <> Panic site) /\ WF cfg (sr_s r) /\ (forall k, sr_out r = Err k -> s_st (sr_s r) = Halted) /\
-    cinv HC (sr_s r).
+    cinv HC (sr_s r) /\ (T -> TR (sr_s r)).
 
-  Lemma service_wrap (r0 : sres enc dec ores ires) :
-    (forall site, sr_out r0 <> Panic site) /\ WFS (sr_s r0) /\ (sr_out r0 = Ok tt -> WFP cfg (sr_s r0)) /\ cinv HC (sr_s r0) ->
-    svc_post (mkSres (halt_on_error (sr_s r0) (sr_out r0)) (sr_bytes r0) (sr_done r0) (sr_out r0)).
+  Lemma service_wrap (T : Prop) (r0 : sres enc dec ores ires) :
+    (forall site, sr_out r0 <> Panic site) /\ WFS (sr_s r0) /\ (sr_out r0 = Ok tt -> WFP cfg (sr_s r0)) /\ cinv HC (sr_s r0) /\
+    (T -> TR (sr_s r0)) ->
+    svc_post T (mkSres (halt_on_error (sr_s r0) (sr_out r0)) (sr_bytes r0) (sr_done r0) (sr_out r0)).
   Proof.
-    intros (N0 & W0 & P0 & I0). unfold svc_post. cbn [sr_s sr_out sr_bytes sr_done]. split; [exact N0|].
+    intros (N0 & W0 & P0 & I0 & T0). unfold svc_post. cbn [sr_s sr_out sr_bytes sr_done]. split; [exact N0|].
     destruct (sr_out r0) as [[]|k|site] eqn:Eo; cbn [halt_on_error].
-    - split; [split; [exact W0|apply P0; reflexivity]|]. split; [intros k Hk; discriminate|exact I0].
-    - split; [split; [exact W0|exact I]|]. split; [intros; reflexivity|exact I0].
+    - split; [split; [exact W0|apply P0; reflexivity]|]. split; [intros k Hk; discriminate|split; [exact I0|exact T0]].
+    - split; [split; [exact W0|exact I]|]. split; [intros; reflexivity|split; [exact I0|exact T0]].
     - exfalso. eapply N0. reflexivity.
   Qed.
 
   Theorem service_spec (s : state) now cap fill :
-    WF cfg s -> cinv HC s -> now <= TMAX -> 4 <= cap -> svc_post (service s now cap fill).
+    WF cfg s -> cinv HC s -> now <= TMAX -> 4 <= cap -> svc_post (TR s) (service s now cap fill).
   Proof.
     intros HWF HI Hnow Hcap. pose proof HWF as [HW HP]. unfold Model.service. cbv zeta.
-    match goal with |- svc_post (mkSres (halt_on_error (sr_s ?M) _) _ _ _) => apply (service_wrap M) end.
+    match goal with |- svc_post _ (mkSres (halt_on_error (sr_s ?M) _) _ _ _) => apply (service_wrap (TR s) M) end.
     destruct (s_st s) eqn:Est.
     - cbn. splits; auto. intros; discriminate.
     - (* PendingConnack *)
@@ -256,23 +263,23 @@ Section Serve.
       destruct (s_connack_to s) as [t|]; [|congruence].
       destruct (t <=? now).
       + cbn. splits; auto; intros; discriminate.
-      + pose proof (service_queue_spec s false now cap fill HWF HI (fun _ => eq_refl) Hcap) as (L1 & L2 & L3 & _ & L5). auto.
+      + pose proof (service_queue_spec s false now cap fill HWF HI (fun _ => eq_refl) Hcap) as (L1 & L2 & L3 & _ & L5 & L6). auto.
     - (* Connected *)
       pose proof (service_keep_alive_spec s now HWF Est Hnow) as Hka.
       destruct (service_keep_alive cfg s now) as [s1|k|site]; [|cbn; splits; auto; intros; discriminate|destruct Hka].
-      destruct Hka as (HWF1 & Hst1 & Hc1).
+      destruct Hka as (HWF1 & Hst1 & Hc1 & Ht1).
       assert (HI1 : cinv HC s1) by (eapply cinv_comp; [exact Hc1|exact HI]).
-      pose proof (service_queue_spec s1 true now cap fill HWF1 HI1 (fun E => ltac:(congruence)) Hcap) as (L1 & L2 & L3 & L4 & L5).
+      pose proof (service_queue_spec s1 true now cap fill HWF1 HI1 (fun E => ltac:(congruence)) Hcap) as (L1 & L2 & L3 & L4 & L5 & L6).
       set (q := service_queue s1 true now cap fill) in *.
       destruct (sr_out q) as [[]|k|site] eqn:Eq.
       + assert (HWFq : WF cfg (sr_s q)) by (split; [exact L2|apply L3; reflexivity]).
         assert (Hstq : s_st (sr_s q) = Connected \/ s_st (sr_s q) = PendingDisconnect) by (rewrite Hst1 in L4; exact L4).
-        destruct (process_ack_timeouts_spec (sr_s q) now HWFq Hstq) as (T1 & [T2 T3] & T4).
+        destruct (process_ack_timeouts_spec (sr_s q) now HWFq Hstq) as (T1 & [T2 T3] & T4 & T5).
         cbn [sr_s sr_out]. splits; auto. eapply cinv_comp; [exact T4|exact L5].
       + splits; auto; rewrite Eq; intros; discriminate.
       + exfalso. eapply L1. reflexivity.
     - (* PendingDisconnect *)
-      destruct (process_ack_timeouts_spec s now HWF (or_intror Est)) as (T1 & [T2 T3] & T4).
+      destruct (process_ack_timeouts_spec s now HWF (or_intror Est)) as (T1 & [T2 T3] & T4 & T5).
       cbn [sr_s sr_out]. splits; auto. eapply cinv_comp; [exact T4|exact HI].
     - cbn. splits; auto; intros; discriminate.
   Qed.
@@ -281,4 +288,4 @@ End Serve.
 
 Arguments WFP_newop {enc dec ores ires} cfg s s' o _ _ _ _ _ _ _ _ _ _ _ _ _ _ _.
 Arguments WFP_after_fail {enc dec ores ires} cfg ids s0 s' _ _ _ _.
-Arguments svc_post {enc enc_reset enc_call dec dec_init dec_feed ores ores_reset ores_resolve ires ires_reset ires_resolve v_out v_in} cfg HC r.
+Arguments svc_post {enc enc_reset enc_call dec dec_init dec_feed ores ores_reset ores_resolve ires ires_reset ires_resolve v_out v_in} cfg HC T r.
